@@ -17,24 +17,25 @@ Arguments is_ded_line : simpl never.
 Arguments is_marker_line : simpl never.
 Arguments line_ok : simpl never.
 
-Definition pos_all (us : list Z) : Prop := Forall (fun u => (0 < u)%Z) us.
-Definition base : list Z := [0; -1]%Z.
+Definition bot (b : Z) : list Z := [b; (-1)%Z].
 
-Lemma dedent_loop_good level us acc :
-  (0 <= level)%Z -> pos_all us ->
-  exists k us', dedent_loop level (us ++ base) acc = Some ((acc + k)%nat, us' ++ base)
-                /\ pos_all us' /\ (1 <= k)%nat /\ length us = (length us' + (k - 1))%nat.
+Lemma dedent_loop_good level us b acc :
+  exists k us' b', dedent_loop level (us ++ bot b) acc = Some ((acc + k)%nat, us' ++ bot b')
+                /\ (1 <= k)%nat /\ length us = (length us' + (k - 1))%nat
+                /\ hd_error (us' ++ bot b') = Some level.
 Proof.
-  intros Hl. revert acc. induction us as [|u us IH]; intros acc Hp.
-  - simpl. destruct (Z.geb_spec level 0); [|lia].
-    exists 1%nat, []. simpl. replace (acc + 1)%nat with (S acc) by lia.
-    repeat split; auto.
-  - inversion Hp as [|? ? Hu Hp']; subst. simpl.
+  revert acc. induction us as [|u us IH]; intros acc.
+  - exists 1%nat, [], level. cbn [app bot dedent_loop length Nat.eqb].
+    rewrite orb_true_r. replace (acc + 1)%nat with (S acc) by lia. repeat split; auto.
+  - cbn [app dedent_loop].
+    assert (Hlen : Nat.eqb (length (u :: us ++ bot b)) 2 = false).
+    { cbn [length]. rewrite app_length. cbn [bot length]. apply Nat.eqb_neq. lia. }
+    rewrite Hlen. rewrite orb_false_r.
     destruct (Z.geb_spec level u).
-    + exists 1%nat, (u :: us). simpl. replace (acc + 1)%nat with (S acc) by lia.
-      repeat split; auto; lia.
-    + destruct (IH (S acc) Hp') as (k & us' & E & P & K & Len).
-      exists (S k), us'. rewrite E. replace (S acc + k)%nat with (acc + S k)%nat by lia.
+    + exists 1%nat, (level :: us), b. replace (acc + 1)%nat with (S acc) by lia.
+      repeat split; auto; simpl; lia.
+    + destruct (IH (S acc)) as (k & us' & b' & E & K & Len & Hd).
+      exists (S k), us', b'. rewrite E. replace (S acc + k)%nat with (acc + S k)%nat by lia.
       repeat split; auto; simpl; lia.
 Qed.
 
@@ -43,40 +44,47 @@ Inductive step_kind (n n' : nat) : list marker -> Prop :=
 | IndK : n' = S n -> step_kind n n' [MInd]
 | DedK k : (1 <= k)%nat -> n = (n' + k)%nat -> step_kind n n' (repeat MDed k).
 
-Lemma handle_good level us :
-  (0 <= level)%Z -> pos_all us ->
-  exists ms us', handle level (us ++ base) = Some (ms, us' ++ base)
-                 /\ pos_all us' /\ step_kind (length us) (length us') ms.
+(* after every line the top of the stack is that line's level *)
+Ltac fin := repeat split; auto; try (constructor; simpl; auto; lia).
+Ltac branch_facts :=
+  let w0 := fresh "w0" in let Hw := fresh "Hw" in
+  intros w0 Hw; cbn [app bot hd_error] in Hw; inversion Hw; subst;
+  repeat split; intros; cbn [length] in *; lia.
+
+(* after every line the top of the stack is that line's level; the depth moves as C12 says *)
+Lemma handle_good level us b :
+  (0 <= level)%Z ->
+  exists ms us' b', handle level (us ++ bot b) = Some (ms, us' ++ bot b')
+     /\ step_kind (length us) (length us') ms
+     /\ hd_error (us' ++ bot b') = Some level
+     /\ (forall w0, hd_error (us ++ bot b) = Some w0 ->
+           ((w0 < level)%Z -> length us' = S (length us))
+           /\ (level = w0 -> length us' = length us)
+           /\ ((level < w0)%Z -> (length us' <= length us)%nat)).
 Proof.
-  intros Hl Hp. destruct us as [|top rest].
-  - (* top of stack is level 0 *)
-    simpl. destruct (Z.eqb_spec level 0).
-    + exists [], []. repeat split; auto. constructor. reflexivity.
-    + destruct (Z.gtb_spec level 0); [|lia].
-      exists [MInd], [level]. repeat split.
-      * repeat constructor. lia.
-      * constructor. reflexivity.
-  - inversion Hp as [|? ? Ht Hp']; subst.
-    cbn [app handle].
+  intros Hl. destruct us as [|top rest].
+  - (* the outermost block *)
+    cbn [app bot handle]. destruct (Z.eqb_spec level b).
+    + exists [], [], b. subst. split; [reflexivity|]. split; [fin|]. split; [reflexivity|branch_facts].
+    + destruct (Z.gtb_spec level b).
+      * exists [MInd], [level], b. split; [reflexivity|]. split; [fin|]. split; [reflexivity|branch_facts].
+      * destruct (Z.gtb_spec level (-1)); [|lia].
+        exists [], [], level. split; [reflexivity|]. split; [fin|]. split; [reflexivity|branch_facts].
+  - cbn [app handle].
     destruct (Z.eqb_spec level top).
-    + exists [], (top :: rest). repeat split; auto. constructor. reflexivity.
+    + exists [], (top :: rest), b. subst. split; [reflexivity|]. split; [fin|]. split; [reflexivity|branch_facts].
     + destruct (Z.gtb_spec level top).
-      * exists [MInd], (level :: top :: rest). repeat split.
-        -- constructor; [lia|auto].
-        -- constructor. reflexivity.
+      * exists [MInd], (level :: top :: rest), b. split; [reflexivity|]. split; [fin|]. split; [reflexivity|branch_facts].
       * (* pop *)
-        assert (exists top2 tl, rest ++ base = top2 :: tl /\ (0 <= top2)%Z) as (top2 & tl & E2 & H2).
-        { destruct rest as [|r rest'].
-          - exists 0%Z, [(-1)%Z]. split; [reflexivity|lia].
-          - inversion Hp'; subst. exists r, (rest' ++ base). split; [reflexivity|lia]. }
+        assert (exists top2 tl, rest ++ bot b = top2 :: tl) as (top2 & tl & E2).
+        { unfold bot. destruct rest as [|r rest']; simpl; eauto. }
         rewrite E2. destruct (Z.gtb_spec level top2).
-        -- exists [], (level :: rest). rewrite <- E2. repeat split.
-           ++ constructor; [lia|auto].
-           ++ constructor. reflexivity.
+        -- exists [], (level :: rest), b. rewrite <- E2. split; [reflexivity|]. split; [fin|]. split; [reflexivity|branch_facts].
         -- rewrite <- E2.
-           destruct (dedent_loop_good level rest 0 Hl Hp') as (k & us' & E & P & K & Len).
-           rewrite E. exists (repeat MDed k), us'. repeat split; auto.
-           apply DedK; [exact K|]. simpl. lia.
+           destruct (dedent_loop_good level rest b 0) as (k & us' & b' & E & K & Len & Hd).
+           rewrite E. exists (repeat MDed k), us', b'. split; [reflexivity|]. split.
+           { apply DedK; [exact K|]. simpl. lia. }
+           split; [exact Hd|]. branch_facts.
 Qed.
 
 (* lines of the cleaned text *)
@@ -181,34 +189,47 @@ Proof. intros H. unfold content_lines. cbn [filter]. rewrite H. reflexivity. Qed
 
 Lemma nil_not_marker : is_marker_line [] = false. Proof. reflexivity. Qed.
 
+Lemma line_depths_deds k : forall d tail,
+  line_depths d (repeat [DEDENT_C] k ++ tail) = line_depths (d - k) tail.
+Proof.
+  induction k as [|k IH]; intros d tail; simpl.
+  - f_equal. lia.
+  - rewrite IH. f_equal. lia.
+Qed.
+
 (* the main invariant, in continuation style *)
-Lemma process_good ls : forall us,
-  forallb clean_line ls = true -> pos_all us ->
-  exists out us', process (us ++ base) ls = Some (out, us' ++ base)
-    /\ pos_all us'
+Lemma process_good ls : forall us b w0,
+  forallb clean_line ls = true -> hd_error (us ++ bot b) = Some w0 ->
+  exists out us' b' ds, process (us ++ bot b) ls = Some (out, us' ++ bot b')
     /\ forallb line_ok out = true
     /\ (forall tail, wf_markers (length us') false tail = true ->
                      wf_markers (length us) false (out ++ tail) = true)
-    /\ content_lines out = map (lstrip is_sp) ls.
+    /\ content_lines out = map (lstrip is_sp) ls
+    /\ follows w0 (length us) (levels ls) ds
+    /\ (forall tail, line_depths (length us) (out ++ tail) = ds ++ line_depths (length us') tail).
 Proof.
-  induction ls as [|l r IH]; intros us Hc Hp.
-  - exists [], us. simpl. repeat split; auto.
+  induction ls as [|l r IH]; intros us b w0 Hc Hhd.
+  - exists [], us, b, []. simpl. repeat split; auto.
   - simpl in Hc. apply andb_true_iff in Hc as [Hl Hr].
-    cbn [process]. destruct (span_sp l) as [n body] eqn:Es.
+    cbn [process levels flat_map]. destruct (span_sp l) as [n body] eqn:Es.
     pose proof (span_sp_lstrip l) as Hls. rewrite Es in Hls. simpl in Hls.
-    destruct body as [|c b].
+    destruct body as [|c bd].
     + (* blank line *)
       pose proof (clean_blank _ _ Hl Es) as ->.
-      destruct (IH us Hr Hp) as (out & us' & E & P & LO & W & CL).
-      rewrite E. exists ([] :: out), us'. repeat split; auto.
-      cbn [map]. rewrite <- Hls. rewrite content_lines_cons_keep by apply nil_not_marker.
-      rewrite CL. reflexivity.
+      destruct (IH us b w0 Hr Hhd) as (out & us' & b' & ds & E & LO & W & CL & F & D).
+      rewrite E. exists ([] :: out), us', b', ds. split; [reflexivity|]. split; [exact LO|].
+      split; [exact W|]. split; [|split; [exact F|]].
+      * cbn [map]. rewrite <- Hls. rewrite content_lines_cons_keep by apply nil_not_marker.
+        rewrite CL. reflexivity.
+      * intros tail. cbn [app line_depths].
+        change (is_ind_line []) with false. change (is_ded_line []) with false. cbn iota. apply D.
     + destruct (clean_body _ _ _ _ Hl Es) as (LOb & NI & ND).
-      destruct (handle_good (Z.of_nat n) us ltac:(lia) Hp) as (ms & us1 & Eh & P1 & K).
+      destruct (handle_good (Z.of_nat n) us b ltac:(lia)) as (ms & us1 & b1 & Eh & K & Hd1 & G).
+      destruct (G w0 Hhd) as (G1 & G2 & G3).
       rewrite Eh.
-      destruct (IH us1 Hr P1) as (out & us' & E & P & LO & W & CL).
-      rewrite E. exists (map marker_line ms ++ (c :: b) :: out), us'.
-      split; [reflexivity|]. split; [exact P|]. split; [|split].
+      destruct (IH us1 b1 (Z.of_nat n) Hr Hd1) as (out & us' & b' & ds & E & LO & W & CL & F & D).
+      rewrite E. exists (map marker_line ms ++ (c :: bd) :: out), us', b', (length us1 :: ds).
+      split; [reflexivity|]. split; [|split; [|split; [|split]]].
       * rewrite forallb_app. simpl. rewrite LOb, LO. rewrite andb_true_r.
         destruct K as [_|_|k _ _].
         -- reflexivity.
@@ -223,4 +244,12 @@ Proof.
       * rewrite content_lines_app, content_lines_markers. cbn [app map].
         rewrite content_lines_cons_keep by (unfold is_marker_line; rewrite NI, ND; reflexivity).
         rewrite CL, Hls. reflexivity.
+      * cbn [app follows]. fold (levels r). split; [|exact F]. repeat split; assumption.
+      * intros tail. rewrite <- app_assoc. cbn [app].
+        destruct K as [Hn|Hn|k Hk Hn].
+        -- cbn [map app line_depths]. rewrite NI, ND. rewrite <- Hn. f_equal. apply D.
+        -- cbn [map app line_depths]. change (is_ind_line (marker_line MInd)) with true. cbn iota.
+           cbn [line_depths]. rewrite NI, ND. rewrite <- Hn. f_equal. apply D.
+        -- rewrite map_marker_line_deds, line_depths_deds. cbn [line_depths].
+           rewrite NI, ND. replace (length us - k)%nat with (length us1) by lia. f_equal. apply D.
 Qed.
